@@ -1349,4 +1349,60 @@ theorem witness_duplicate_upward :
       = (.ok, [⟨[⟨1,4,1,4⟩], "a"⟩, ⟨[⟨1,5,3,5⟩], "b"⟩, ⟨[⟨1,6,1,6⟩], "c"⟩, ⟨[⟨1,4,2,5⟩], "d"⟩, ⟨[⟨1,2,3,2⟩], "b"⟩]) := by
   decide +kernel
 
+/-- Round 5 (third wave), `DuplicateRowTo` composed into one statement for the range-anchored objects of the
+source row: on a dense sheet with well-formed objects whose conditional formats / data validations are ordered
+and not cut at the last row by the insertion, an accepted `DuplicateRowTo(row, row2)` of a stored source row
+(target above or below) leaves as conditional formats (data validations) exactly the old ones shifted by the
+one-row insertion at `row2`, followed — in order — by one copy per item that had a single-row reference on
+`row` before the call, on `row2` (insertion step + `duplicateConditionalFormat` + `duplicateDataValidations` +
+`duplicateMergeCells` through `runDupHelpers` over the regenerated helper list). -/
+theorem duplicate_row_to_objects (s s' : Sheet) (hw : WF s.rows) (ho : ObjWF s) (row row2 : Int)
+    (h1 : 1 ≤ row) (h2 : 1 ≤ row2) (hlt : row2 < maxRows) (hne : row ≠ row2)
+    (hsrc : (s.rows.find? (fun r => r.r == row)).isSome = true)
+    (hcf : ∀ it ∈ s.cfs, ∀ q ∈ it.rects, rectOk q = true ∧ q.y1 ≤ q.y2 ∧ Spec.posIns row2 1 q.y2 ≤ maxRows)
+    (hdv : ∀ it ∈ s.dvs, ∀ q ∈ it.rects, rectOk q = true ∧ q.y1 ≤ q.y2 ∧ Spec.posIns row2 1 q.y2 ≤ maxRows)
+    (h : duplicateRowTo s row row2 = (.ok, s')) :
+    s'.cfs = insItems row2 s.cfs ++ s.cfs.filterMap (dupItem row row2) ∧
+    s'.dvs = insItems row2 s.dvs ++ s.dvs.filterMap (dupItem row row2) := by
+  unfold duplicateRowTo duplicateRowToG at h
+  have g1 : ¬ row < 1 := by omega
+  have g2 : ¬ (row2 < 1 ∨ row = row2) := by omega
+  simp only [g1, g2, if_false] at h
+  cases hadj : adjustHelperG false s .rows row2 1 with
+  | mk st s1 =>
+    rw [hadj] at h
+    cases st with
+    | ok =>
+      have hins : insertRows s row2 1 = (.ok, s1) := by
+        unfold insertRows insertRowsG
+        have a1 : ¬ row2 < 1 := by omega
+        have a2 : ¬ (row2 ≥ maxRows ∨ (1 : Int) ≥ maxRows) := by omega
+        have a3 : ¬ ((1 : Int) < 1) := by omega
+        simp only [a1, a2, a3, if_false, hadj]
+      obtain ⟨_, hc, hd, _⟩ := insert_rows_objects_refine s s1 hw ho row2 1 hins
+      cases hf : s.rows.find? (fun r => r.r == row) with
+      | none => rw [hf] at hsrc; cases hsrc
+      | some rc =>
+        rw [hf] at h
+        simp only at h
+        rw [dup_helpers_ok] at h
+        have e1 := (duplicate_sq_copies_exact row row2 hne ⟨h2, by omega⟩ s.cfs hcf).2
+        have e2 := (duplicate_sq_copies_exact row row2 hne ⟨h2, by omega⟩ s.dvs hdv).2
+        have hc' : s1.cfs = insItems row2 s.cfs := hc
+        have hd' : s1.dvs = insItems row2 s.dvs := hd
+        simp only [runDupHelpers, runDupHelper, if_true, hc', hd', e1, e2,
+          show ("duplicateDataValidations" = "duplicateConditionalFormat") = False from by decide,
+          show ("duplicateMergeCells" = "duplicateConditionalFormat") = False from by decide,
+          show ("duplicateMergeCells" = "duplicateDataValidations") = False from by decide, if_false] at h
+        split at h
+        · rename_i s2 hm
+          have hk := dupMerges_keeps _ _ _ _ _ hm
+          cases h
+          exact hk
+        · rename_i st2 s2 _ hm
+          have hk := dupMerges_keeps _ _ _ _ _ hm
+          cases h
+          exact hk
+    | _ => cases h
+
 end XlModel.Props.C06
